@@ -260,7 +260,8 @@ class World:
 
     def open_reader(self, name, autorefresh, position='start', head=None):
         self.ensure_clock_after_newest()
-        r = self.rl.RollLog(self.dir, self.mode, rdonly=True, autorefresh=autorefresh, head=head)
+        kw = {'file_size': self.reader_fs} if getattr(self, 'reader_fs', None) else {}
+        r = self.rl.RollLog(self.dir, self.mode, rdonly=True, autorefresh=autorefresh, head=head, **kw)
         return self.add_reader(name, r, position) if head is None else r
 
     def items_of(self, x, block):
